@@ -29,7 +29,8 @@ func init() {
 		Rule: "histories over {AddInterceptor(i...), RemoveInterceptor(i...), ClearInterceptor, SetHTTPClient(c_k), request of verb in {Get, Head, Options, Delete, Post, Put, Patch, via SimpleAPI}} with 0..6 interceptor objects (duplicates allowed) " +
 			"and 1..3 clients (one with a nil Transport: http.DefaultTransport is swapped for the stub during the run); at every request point the request is issued once without a fault and once per position of a failing interceptor (enumerated); " +
 			"oracle: list model of registrations; per request the call log is the model list in order, each once, then the transport once; interceptor header changes reach the transport; a failing interceptor aborts the rest and its error surfaces; " +
-			"no chain re-entrancy; non-trivial = a request with >=2 registered interceptors; distinct = distinct (history, fault position) pairs",
+			"no chain re-entrancy; non-trivial = a request with >=2 registered interceptors; distinct = distinct (history, fault position) pairs" +
+			" Later additions: redirect hop and network failure (plain/EOF/ECONNRESET) at every request point, cancelled request contexts, a panicking interceptor followed by a normal request, an interceptor unregistering a later one during a request, two concurrent requests per history, caller-owned slices overwritten after Add/Remove, twin instances, surplus-header oracle.",
 		Real: []string{"network.SimpleHTTPDef (Add/Remove/ClearInterceptor, SetHTTPClient, RoundTrip/recursiveVisit, verbs)", "network.SimpleAPIDef", "fpgo.StreamDef (interceptor list)", "net/http.Client"},
 		Stub: []string{"http.RoundTripper (the network)", "interceptor functions (logging, header setting, fault injection)"},
 	})
